@@ -72,6 +72,12 @@ pub enum N {
         body: Vec<N>,
     },
     Call(u32),
+    /// a job that sleeps "forever" is killed by the parent and awaited:
+    /// `{ echo started; nap 100000; echo NEVER; } >out & p=$!; kill -s SIG $p; wait $p`
+    Killed {
+        id: u32,
+        sig: u8,
+    },
 }
 
 #[derive(Clone, Debug, Serialize, Deserialize)]
@@ -156,6 +162,14 @@ impl Gen<'_> {
                     if self.rng.below(3) == 0 {
                         out.push(N::Qm);
                     }
+                }
+                83 if allow_bg && depth < 2 => {
+                    self.next_id += 1;
+                    out.push(N::Killed {
+                        id: self.next_id,
+                        sig: *self.rng.pick(&[9u8, 15, 15, 1]),
+                    });
+                    out.push(N::Qm);
                 }
                 83..=90 if !open.is_empty() => {
                     // wait for one known job
@@ -384,6 +398,14 @@ fn render(n: &N, out: &mut String, _sep: &str) {
             ));
         }
         N::Def { f, body } => out.push_str(&format!("f{f}() {{ {}}}", inline(body))),
+        N::Killed { id, sig } => out.push_str(&format!(
+            "{{ echo started; nap 100000; echo NEVER; exit 1; }} >out_{id} & p_{id}=$!; kill -s {} $p_{id}; wait $p_{id}",
+            match sig {
+                9 => "KILL",
+                15 => "TERM",
+                _ => "HUP",
+            }
+        )),
         N::Call(f) => out.push_str(&format!("f{f}")),
     }
 }
@@ -415,6 +437,8 @@ struct Ctx {
     pipefail: bool,
     /// ids of jobs whose parent (this context) never waited for them
     unwaited: BTreeSet<u32>,
+    /// exit status beyond 255 (a job killed by a signal), consumed by the next Qm
+    status_wide: Option<u32>,
 }
 
 impl Ctx {
@@ -427,6 +451,7 @@ impl Ctx {
             funcs: self.funcs.clone(),
             pipefail: self.pipefail,
             unwaited: BTreeSet::new(),
+            status_wide: None,
         }
     }
 }
@@ -445,7 +470,10 @@ fn eval(n: &N, cx: &mut Ctx) {
         }
         N::Rc(k) => cx.status = *k,
         N::Qm => {
-            cx.out.push(format!("?={}", cx.status));
+            match cx.status_wide.take() {
+                Some(w) => cx.out.push(format!("?={w}")),
+                None => cx.out.push(format!("?={}", cx.status)),
+            }
             cx.status = 0;
         }
         N::Pipe { neg, first, rest } => {
@@ -561,6 +589,11 @@ fn eval(n: &N, cx: &mut Ctx) {
         N::Call(f) => {
             let body = cx.funcs.get(f).cloned().unwrap_or_default();
             eval_block(&body, cx);
+        }
+        N::Killed { sig, .. } => {
+            // a job killed by signal n reports 384 + n
+            cx.status_wide = Some(384 + *sig as u32);
+            cx.status = 0;
         }
     }
 }
@@ -817,7 +850,28 @@ pub fn check_run(c: &Case, exp: &Expect, obs: &Observed) -> Option<(String, Stri
     // history: wait results are true, not early, at most once
     let mut exits: BTreeMap<i64, (u64, i64)> = BTreeMap::new();
     let mut reaped: BTreeMap<i64, u32> = BTreeMap::new();
+    // a process must not do anything after it exited or was killed
+    let mut dead: BTreeMap<i32, (u64, String)> = BTreeMap::new();
     for e in &obs.history {
+        if let Some((seq, how)) = dead.get(&e.pid)
+            && matches!(e.kind.as_str(), "read" | "write" | "fork" | "kill" | "wait" | "exit" | "mark")
+        {
+            return Some((
+                "ghost".into(),
+                "ghost:runs-after-death".into(),
+                format!(
+                    "pid {} {how} at event #{seq} but performs `{}` (a={} b={}) at event #{}",
+                    e.pid, e.kind, e.a, e.b, e.seq
+                ),
+            ));
+        }
+        if e.kind == "exit" {
+            dead.insert(e.pid, (e.seq, format!("exited with {}", e.a)));
+        }
+        if e.kind == "kill" && e.a > 0 && matches!(e.b, 1 | 9 | 15) {
+            dead.insert(e.a as i32, (e.seq, format!("was killed by signal {} sent by pid {}", e.b, e.pid)));
+            exits.entry(e.a).or_insert((e.seq, 384 + e.b));
+        }
         match e.kind.as_str() {
             "exit" => {
                 exits.entry(e.pid as i64).or_insert((e.seq, e.a));
